@@ -1523,6 +1523,12 @@ where
         let AttributeOp { selector, action } = op;
         let dict = self.dict.clone();
 
+        if action.is_constructive() {
+            // fail before creating anything
+            // if the path cannot be fully navigated or created
+            self.check_constructive_path(&selector)?;
+        }
+
         let mut obj = self;
         for (i, step) in selector.iter().enumerate() {
             match step {
@@ -1587,6 +1593,62 @@ where
             }
         }
         unreachable!()
+    }
+
+    /// Check that a constructive operation can reach its leaf attribute,
+    /// creating missing sequences and exactly the next item where needed,
+    /// so that an operation which fails does not leave
+    /// partially created sequences or items behind.
+    fn check_constructive_path(&self, selector: &AttributeSelector) -> ApplyResult {
+        // `None` once inside the part of the path which is yet to be created
+        let mut obj = Some(self);
+        for (i, step) in selector.iter().enumerate() {
+            let AttributeSelectorStep::Nested { tag, item } = step else {
+                break;
+            };
+            match obj.and_then(|obj| obj.entries.get(tag)) {
+                None => {
+                    // the sequence would be created empty,
+                    // so only its first item may be selected
+                    let vr = self
+                        .dict
+                        .by_tag(*tag)
+                        .and_then(|entry| entry.vr().exact())
+                        .unwrap_or(VR::UN);
+                    if vr != VR::SQ && vr != VR::UN {
+                        return Err(ApplyError::NotASequence {
+                            selector: selector.clone(),
+                            step_index: i as u32,
+                        });
+                    }
+                    if *item != 0 {
+                        return Err(ApplyError::MissingSequence {
+                            selector: selector.clone(),
+                            step_index: i as u32,
+                        });
+                    }
+                    obj = None;
+                }
+                Some(e) => {
+                    let items = e.items().ok_or_else(|| ApplyError::NotASequence {
+                        selector: selector.clone(),
+                        step_index: i as u32,
+                    })?;
+                    obj = match items.get(*item as usize) {
+                        Some(item) => Some(item),
+                        // the next item would be created
+                        None if items.len() == *item as usize => None,
+                        None => {
+                            return Err(ApplyError::MissingSequence {
+                                selector: selector.clone(),
+                                step_index: i as u32,
+                            });
+                        }
+                    };
+                }
+            }
+        }
+        Ok(())
     }
 
     fn apply_leaf(&mut self, tag: Tag, action: AttributeAction) -> ApplyResult {
